@@ -3,6 +3,8 @@ from verif.core import Job
 UNITS = ["coap_threadsafe.c", "coap_net.c", "coap_session.c"]
 EXTRA = ["common/env.c"]
 CFGS = {"cmake": None, "autotools": {"COAP_THREAD_SAFE": "1"}}
+WRAPPERS = {0: "coap_session_reference", 1: "coap_delete_resource-nullctx", 2: "coap_delete_resource", 3: "coap_resource_notify_observers",
+            4: "coap_session_release", 5: "coap_send"}
 FORMS = {0: "callback", 1: "callback_ret", 2: "callback_release", 3: "callback_ret_release", 4: "event-call-site", 5: "invert"}
 
 META = {
@@ -21,10 +23,13 @@ def jobs():
     js = []
     for cn, patch in CFGS.items():
         tier = "quick"
-        js.append(Job("B0-wrapper-locks@%s" % cn, "C13/c13.c", "c13_b0_wrapper_locks", UNITS, extra_src=EXTRA, cfg_patch=patch,
-                      remove_bodies=["coap_session_reference_lkd"], unwind=3, tier=tier, group="B0", native_replay=False,
-                      desc="capability vs configuration (%s): wrapper holds the global lock iff support is advertised" % cn,
-                      bounds={"config": cn}))
+        for w, wn in WRAPPERS.items():
+            js.append(Job("B0-wrapper-locks-%s@%s" % (wn, cn), "C13/c13.c", "c13_b0_wrapper_locks", UNITS + ["coap_resource.c"], extra_src=EXTRA, cfg_patch=patch,
+                          defines=["B0_WRAPPERS", "WRAPPER=%d" % w],
+                          remove_bodies=["coap_session_reference_lkd", "coap_delete_resource_lkd", "coap_resource_notify_observers_lkd",
+                                         "coap_session_release_lkd", "coap_send_lkd"], unwind=3, tier=tier, group="B0", native_replay=False,
+                          desc="capability vs configuration (%s): %s holds the global lock iff support is advertised" % (cn, wn),
+                          bounds={"config": cn, "wrapper": wn}))
         for f, fn in FORMS.items():
             for nest in (1, 2):
                 js.append(Job("S1-%s-nest%d@%s" % (fn, nest, cn), "C13/c13.c", "c13_s1_lock_protocol", UNITS, extra_src=EXTRA,
@@ -41,4 +46,25 @@ def jobs():
                           tier="quick" if (e1, e2) != (1, 1) else "thorough", timeout=900,
                           desc="two threads, real lock functions, event callback in thread1=%d thread2=%d (%s config)" % (e1, e2, cn),
                           bounds={"threads": 2, "config": cn}))
+    # S2: the callback call sites of the protocol layer (CMake configuration = the one /repo builds): the recording handlers of
+    # netenv.h assert "entered inside a coap_lock_callback* section or with the lock released" (-DC13_CALLBACK_CHECK)
+    import copy
+    from jobs import C06, C07, C08
+    for what, entry in (("pong", "c13_s2_pong"), ("ping", "c13_s2_ping")):
+        js.append(Job("S2-callsite-%s" % what, "C13/c13cs.c", entry, C07.UNITS, extra_src=C07.EXTRA, defines=["C13_CALLBACK_CHECK"] + C07.CUT_CLIENT,
+                      remove_bodies=C07.RB_CLIENT, unwind=18, flags=C07.FS, group="S2-callsite", timeout=900, est_gb=3,
+                      desc="%s handler call site in coap_dispatch: callback entered through coap_lock_callback" % what, bounds={"callsite": what}))
+    picks = (("C07", C07, ("S1-response@con-same-mid", "S1-response@non-nonode", "S1-empty@rst-same-mid")),
+             ("C08", C08, ("S4-session-failure@held1", "S4-session-failure@held2")),
+             ("C06", C06, ("S2-retransmit@other0-giveup",)))
+    for pn, mod, names in picks:
+        for j in mod.jobs():
+            if j.name in names:
+                j2 = copy.deepcopy(j)
+                j2.name = "S2-callsite-%s-%s" % (pn, j.name)
+                j2.group = "S2-callsite"
+                j2.defines = list(j.defines) + ["C13_CALLBACK_CHECK"]
+                j2.tier = "quick"
+                j2.kf = None
+                js.append(j2)
     return js
